@@ -34,14 +34,26 @@ def build():
     defs.append(("trunc_cmp_is_gt", "bool", "true" if m.group(1) == ">" else "false"))
     one(r"response\.header_mut\(\)\.set_tc\(\s*true\s*\)\s*;", tr, "truncate sets TC")
     one(r"\*target\.header_mut\(\)\s*=\s*source\.header\(\)\s*;", tr, "truncate copies header")
-    one(r"for\s+rr\s+in\s+source\.question\(\)\s*\{\s*target\.push\(rr\?\)\?\s*;\s*\}", tr, "truncate copies questions")
+    q_old = re.findall(r"for\s+rr\s+in\s+source\.question\(\)\s*\{\s*target\.push\(rr\?\)\?\s*;\s*\}", tr)
+    q_new = re.findall(r"for\s+rr\s+in\s+source\.question\(\)\s*\{\s*match\s+target\.push\(rr\?\)\s*\{\s*Ok\(\(\)\)\s*=>\s*\{\s*\}\s*,?\s*"
+                       r"Err\(PushError::LimitExceeded\)\s*=>\s*break\s*,\s*Err\(err\)\s*=>\s*return\s+Err\(err\.into\(\)\)\s*,?\s*\}\s*\}", tr)
+    if len(q_old) + len(q_new) != 1:
+        raise GenError("truncate: the question loop is neither `target.push(rr?)?` nor the limit-aware match with break on LimitExceeded")
     one(r"if\s+let\s+Some\(opt\)\s*=\s*source\.opt\(\)\s*\{\s*if\s+let\s+Err\(err\)\s*=\s*target\.push\(opt\.as_record\(\)\)", tr,
         "truncate copies the response's OPT")
     # the rebuilt message: no limit while the questions are pushed, then
     # set_push_limit(max_response_size + 1) around the OPT push (a push fails when
     # new_pos >= limit, so +1 admits exactly max_response_size octets), cleared afterwards
-    one(r"let\s+mut\s+target\s*=\s*target\.additional\(\)\s*;\s*target\.set_push_limit\(\s*max_response_size\s*\+\s*1\s*\)\s*;\s*"
-        r"if\s+let\s+Some\(opt\)\s*=\s*source\.opt\(\)", tr, "truncate: set_push_limit(max_response_size + 1) right before the OPT push")
+    lim = r"target\.set_push_limit\(\s*max_response_size\s*\+\s*1\s*\)\s*;\s*"
+    if q_new:
+        # limit set before the questions are pushed
+        one(r"let\s+mut\s+target\s*=\s*target\.question\(\)\s*;\s*" + lim + r"for\s+rr\s+in\s+source\.question\(\)", tr,
+            "truncate: set_push_limit(max_response_size + 1) right before the question loop")
+        one(r"let\s+mut\s+target\s*=\s*target\.additional\(\)\s*;\s*if\s+let\s+Some\(opt\)\s*=\s*source\.opt\(\)", tr, "truncate: OPT push follows")
+    else:
+        one(r"let\s+mut\s+target\s*=\s*target\.additional\(\)\s*;\s*" + lim + r"if\s+let\s+Some\(opt\)\s*=\s*source\.opt\(\)", tr,
+            "truncate: set_push_limit(max_response_size + 1) right before the OPT push")
+    defs.append(("trunc_questions_limited", "bool", "true" if q_new else "false"))
     if len(re.findall(r"set_push_limit", tr)) != 1:
         raise GenError("truncate sets a push limit more than once")
     one(r"target\.clear_push_limit\(\)\s*;\s*let\s+new_len\s*=\s*target\.as_slice\(\)\.len\(\)", tr, "truncate clears the push limit after the OPT push")
@@ -152,6 +164,59 @@ def build():
     defs.append(("qr_request_gets_formerr", "bool", "true"))
     m = one(r"const\s+MAX_QUEUED_RESPONSES\s*:\s*DefMinMax<usize>\s*=\s*DefMinMax::new\(\s*(\d+)\s*,\s*(\d+)\s*,\s*(\d+)\s*\)\s*;", cn, "MAX_QUEUED_RESPONSES")
     defs.append(("max_queued_default", "N", "%d%%N" % num(m.group(1))))
+    # ---- error responses
+    ut = strip_comments(read("src/net/server/util.rs"))
+    mk = fn_body(ut, "mk_error_response")
+    e_old = re.findall(r"mk_builder_for_target\(\)\s*\.start_error\(msg,\s*rcode\.rcode\(\)\)\s*\.additional\(\)", mk)
+    e_new = re.findall(r"if\s+let\s+Some\(Ok\(item\)\)\s*=\s*msg\.question\(\)\.next\(\)\s*\{\s*if\s+question\.push\(item\)\.is_err\(\)", mk)
+    if len(e_old) + len(e_new) != 1 or (e_new and "start_error" in mk):
+        raise GenError("mk_error_response: neither start_error(msg, rcode) nor the first-question-only form")
+    defs.append(("err_resp_first_question_only", "bool", "true" if e_new else "false"))
+    if e_new:
+        for f in ("set_id\(msg\.header\(\)\.id\(\)\)", "set_qr\(true\)", "set_opcode\(msg\.header\(\)\.opcode\(\)\)",
+                  "set_rd\(msg\.header\(\)\.rd\(\)\)", "set_rcode\(rcode\.rcode\(\)\)"):
+            one(r"header\." + f, mk, "mk_error_response header field " + f)
+    else:
+        se = fn_body(mb, "start_error")
+        for f in ("set_id\(msg\.header\(\)\.id\(\)\)", "set_qr\(true\)", "set_opcode\(msg\.header\(\)\.opcode\(\)\)",
+                  "set_rd\(msg\.header\(\)\.rd\(\)\)", "set_rcode\(rcode\)"):
+            one(r"header\." + f, se, "start_error header field " + f)
+        one(r"for\s+item\s+in\s+msg\.question\(\)\.flatten\(\)", se, "start_error echoes the questions")
+    one(r"add_edns_options\(&mut\s+additional,\s*\|opt\|\s*\{\s*opt\.set_rcode\(rcode\)\s*;\s*Ok\(\(\)\)\s*\}\)", mk, "mk_error_response always adds an OPT with the rcode")
+    rc = strip_comments(read("src/base/iana/rcode.rs"))
+    for nm in ("FORMERR", "SERVFAIL", "NOTIMP", "REFUSED"):
+        m = one(r"impl\s+Rcode\s*\{.*?pub\s+const\s+%s\s*:\s*Self\s*=\s*Self\((\d+)\)\s*;" % nm, rc, "Rcode::" + nm)
+        defs.append(("rc_" + nm.lower(), "N", "%d%%N" % num(m.group(1))))
+    m = one(r"pub\s+const\s+BADVERS\s*:\s*Self\s*=\s*Self\((\d+)\)\s*;", rc, "OptRcode::BADVERS")
+    defs.append(("rc_badvers", "N", "%d%%N" % num(m.group(1))))
+    oh = strip_comments(read("src/base/opt/mod.rs"))
+    m = one(r"pub\s+fn\s+set_rcode\(&mut\s+self,\s*rcode:\s*OptRcode\)\s*\{\s*self\.inner\[(\d+)\]\s*=\s*rcode\.ext\(\)", oh, "OptHeader::set_rcode")
+    if num(m.group(1)) != 5:
+        raise GenError("OptHeader ext rcode octet moved")
+    oc = strip_comments(read("src/base/iana/opcode.rs"))
+    m = one(r"\(QUERY\s*=>\s*(\d+)\s*,", oc, "Opcode::QUERY"); defs.append(("opcode_query", "N", "%d%%N" % num(m.group(1))))
+    m = one(r"\(IQUERY\s*=>\s*(\d+)\s*,", oc, "Opcode::IQUERY"); defs.append(("opcode_iquery", "N", "%d%%N" % num(m.group(1))))
+    mpre = fn_body(man, "preprocess", after="impl<RequestOctets, NextSvc, RequestMeta>")
+    one(r"if\s+self\.strict\s*&&\s*msg\.header\(\)\.opcode\(\)\s*==\s*Opcode::IQUERY\s*\{.*?mk_error_response\(\s*msg,\s*OptRcode::NOTIMP,?\s*\)", mpre, "mandatory: IQUERY => NOTIMP")
+    m = one(r"if\s+self\.strict\s*&&\s*msg\.header\(\)\.opcode\(\)\s*==\s*Opcode::QUERY\s*&&\s*msg\.header_counts\(\)\.qdcount\(\)\s*(>=|>)\s*(\d+)\s*\{.*?"
+            r"mk_error_response\(\s*msg,\s*OptRcode::FORMERR,?\s*\)", mpre, "mandatory: QUERY with QDCOUNT > 1 => FORMERR")
+    defs.append(("qdcount_max", "N", "%d%%N" % (num(m.group(2)) if m.group(1) == ">" else num(m.group(2)) - 1)))
+    if not re.search(r"Opcode::IQUERY.*Opcode::QUERY", mpre, re.S):
+        raise GenError("mandatory preprocess: order of the IQUERY and QDCOUNT checks changed")
+    one(r"if\s+iter\.next\(\)\.is_some\(\)\s*\{.*?OptRcode::FORMERR", pre, "edns: more than one OPT => FORMERR")
+    one(r"let\s+opt\s*=\s*match\s+opt\s*\{\s*Ok\(opt\)\s*=>\s*opt\s*,\s*Err\(err\)\s*=>\s*\{.*?OptRcode::FORMERR", pre, "edns: unparseable OPT => FORMERR")
+    one(r"if\s+opt_rec\.version\(\)\s*>\s*EDNS_VERSION_ZERO\s*\{.*?OptRcode::BADVERS", pre, "edns: version > 0 => BADVERS")
+    if not (pre.find("iter.next().is_some()") < pre.find("Err(err) =>") < pre.find("opt_rec.version() >") < pre.find("set_max_response_size_hint")):
+        raise GenError("edns preprocess: order of the OPT checks / negotiation changed")
+    one(r"mk_error_response::<Buf::Output,\s*Svc::Target>\(\s*&msg,\s*OptRcode::FORMERR,?\s*\)", dpm, "dgram: QR=1 => FORMERR, sent without the middleware")
+    sv = strip_comments(read("src/net/server/service.rs"))
+    rcf = fn_body(sv, "rcode", after="impl ServiceError")
+    for k, v in (("FormatError", "FORMERR"), ("InternalError", "SERVFAIL"), ("NotImplemented", "NOTIMP"), ("Refused", "REFUSED")):
+        one(r"Self::%s\s*=>\s*Rcode::%s" % (k, v), rcf, "ServiceError::%s => %s" % (k, v))
+    inv = strip_comments(read("src/net/server/invoker.rs"))
+    one(r"Err\(err\)\s*=>\s*\{\s*self\.set_status\(InvokerStatus::Aborting\)\s*;\s*Some\(mk_error_response\(req_msg,\s*err\.rcode\(\)\.into\(\)\)\)", inv,
+        "invoker: service error => mk_error_response, stream aborted")
+    defs.append(("svc_error_bypasses_middleware", "bool", "true"))
     # full response queue: the same response is retried after yielding; no drop, no bounded wait
     enq = fn_body(cn, "do_enqueue_response")
     one(r"loop\s*\{\s*match\s+self\.result_q_tx\.try_send\(response\)\s*\{", enq, "do_enqueue_response: loop { match try_send(response)")
